@@ -910,3 +910,101 @@ def place_type_str(prog, body, place):
         else:
             return None
     return cur
+
+
+# =====================================================================================================
+# polarity of a boolean function built from one predicate call
+# =====================================================================================================
+def bool_polarity(body, pv, pred):
+    """body returns a bool computed from the result p of a call for which pred(callee) holds.
+    Returns (+1 | -1 | None, callee term | None):  +1: returns p,  -1: returns !p."""
+    # find predicate calls in the body
+    pcalls = [(bi, t) for bi, t in body.calls() if pred(t.callee)]
+    if not pcalls:
+        return None, None
+    pl = {t.dest.local: (bi, t) for bi, t in pcalls if t.dest.is_local()}
+    defs = pv.defs(body)
+
+    def val(local, depth=0):
+        """symbolic value of a bool local: ('p', sign, call) or None"""
+        if depth > 8:
+            return None
+        if local in pl:
+            return (1, pl[local][1])
+        ds = defs.get(local, [])
+        res = None
+        for kind, pos, d in ds:
+            if kind != "assign":
+                return None
+            rv = d.rv
+            if rv["k"] == "use" and rv["op"].place is not None and rv["op"].place.is_local():
+                r = val(rv["op"].place.local, depth + 1)
+            elif rv["k"] == "un" and rv["op"] == "Not" and rv["o"].place is not None:
+                r = val(rv["o"].place.local, depth + 1)
+                if r is not None:
+                    r = (-r[0], r[1])
+            else:
+                return None
+            if r is None:
+                return None
+            if res is not None and res[0] != r[0]:
+                return None
+            res = r
+        return res
+
+    direct = val(0)
+    if direct is not None:
+        return direct
+    # switch form: if p { const } else { const }
+    for bi in sorted(body.reach):
+        t = body.blocks[bi].term
+        if t.k != "switch" or t.discr.place is None:
+            continue
+        r = val(t.discr.place.local)
+        if r is None:
+            continue
+        vals = [v for v, _ in t.targets]
+        true_t = [tg for v, tg in t.targets if v == 1] or ([t.otherwise] if vals == [0] else [])
+        false_t = [tg for v, tg in t.targets if v == 0]
+        if not true_t or not false_t:
+            continue
+
+        def const_in(tg):
+            region = body.region((bi, tg))
+            out = set()
+            for pos, s in body.stmts():
+                if pos[0] in region and s.k == "assign" and s.place.local == 0 and s.place.is_local() and s.rv["k"] == "use" and s.rv["op"].kind == "const":
+                    out.add(s.rv["op"].const["val"])
+            return out
+        ct, cf = const_in(true_t[0]), const_in(false_t[0])
+        if ct == {"true"} and cf == {"false"}:
+            return (r[0], r[1])
+        if ct == {"false"} and cf == {"true"}:
+            return (-r[0], r[1])
+    return None, pcalls[0][1]
+
+
+def kernel(prog, body, ignore_callees=()):
+    """SIBLING kernel: resolved crate callees, semantic std adaptors, Not-parity, and constants of a body with its closures"""
+    callees = set()
+    adaptors = []
+    nots = 0
+    consts = set()
+    for fb in prog.family(body):
+        for bi, t in fb.calls():
+            c = t.callee
+            if is_tracing(t.exp):
+                continue
+            if c.res and c.res in prog.bodies:
+                if c.res not in ignore_callees:
+                    callees.add(c.res)
+            elif c.method in ("filter", "map", "filter_map", "any", "all", "unwrap_or", "unwrap_or_else", "fold", "find", "collect", "chain", "rev", "skip", "take", "is_none", "is_some"):
+                adaptors.append(c.method)
+        for pos, s in fb.stmts():
+            if s.k == "assign" and s.rv["k"] == "un" and s.rv["op"] == "Not":
+                nots += 1
+            if s.k == "assign":
+                for o in s.ops:
+                    if o.kind == "const" and o.const["ty"] in ("bool", "u32", "usize", "f32"):
+                        consts.add(o.const["val"])
+    return {"callees": frozenset(callees), "adaptors": tuple(sorted(adaptors)), "not_parity": nots % 2, "consts": frozenset(consts)}
